@@ -22,6 +22,7 @@ RULE = ("complete grid of generator programs {raise before yield, no yield, yiel
         "instance of the same program; for GeneratorExit the documented deviation is the reference (generator "
         "closed; outcome = what aclose() raises, else the same GeneratorExit object). non-trivial = the generator "
         "yielded and the exit path interacted with it; distinct = program x outcome x suspension variant")
+RULE += (' Also: decorator form (the manager decorating an async function whose body has the outcome), against contextlib.asynccontextmanager used as a decorator.')
 ASSUMPTIONS = ["contextlib.asynccontextmanager of the running interpreter is the reference",
                "__cause__/__context__ chains and messages are not compared"]
 EXHAUSTIVE = {"quick": True, "thorough": True}
@@ -92,7 +93,9 @@ def cases(tier, seed, shard, nshards):
     idx = 0
     for pre, handler, after, outcome in itertools.product(PRE, HANDLER, AFTER, OUTCOME):
         for susp in (0, 1):
-            for mode in ("with", "reuse"):
+            for mode in ("with", "reuse", "decorator"):
+                if mode == "decorator" and outcome == "GeneratorExit":
+                    continue  # the documented deviation is modelled for the with-statement form only
                 if mode == "reuse" and (handler.startswith("yield_again") or after.startswith("yield_again")):
                     # a generator that yields twice is left suspended by asyncstdlib and closed by contextlib (3.12);
                     # what a further use of such a broken manager does is outside the property
@@ -200,7 +203,21 @@ def trial(factory, case):
     cm = factory(make(case["pre"], case["handler"], case["after"], log, case["susp"]))
     exc = make_exc(case["outcome"])
 
+    async def decorated_form():
+        # the manager as a decorator: every call of the function runs inside a context of its own, the call's
+        # result is handed through, and a failure that the generator swallows makes the call return None
+        @cm(1, k=2)
+        async def fn(a, b=None):
+            log.append(("entered", a, b))
+            if exc is not None:
+                raise exc
+            return "body-result"
+
+        log.append(("returned", await fn(5, b=6)))
+
     async def body():
+        if case.get("mode") == "decorator":
+            return await decorated_form()
         manager = cm(1, k=2)
         try:
             async with manager as v:
